@@ -101,6 +101,16 @@ pub fn instants_for(z: &RefZone, rng: &mut Rng, n_random: usize, rule_years: usi
         v.push(*t);
         v.push(t + d);
     }
+    // inside every gap between consecutive transitions: a random instant and the quarter points
+    // (a reader that drops, merges or misplaces a whole interval is wrong here and nowhere else)
+    for w in z.trans.windows(2) {
+        let (a, b) = (w[0].0, w[1].0);
+        if b - a >= 4 {
+            v.push(rng.range(a + 1, b - 1));
+            v.push(a + (b - a) / 4);
+            v.push(a + (b - a) / 4 * 3);
+        }
+    }
     let start = z.trans.first().map(|t| t.0).unwrap_or_else(|| cal::unix_from_civil(1900, 1, 1, 0, 0, 0));
     let after = z.trans.last().map(|t| t.0).unwrap_or(start);
     if let Footer::Rule(r) = &z.footer {
@@ -548,6 +558,40 @@ pub fn system_files() -> Vec<(String, std::path::PathBuf)> {
 /// A zone that differs from `z` in exactly one component of its footer rule (a rule time, the
 /// daylight offset, the standard offset, or one of the two dates), everything else identical.
 pub fn sibling_of(z: &RefZone, rng: &mut Rng) -> Option<Vec<u8>> {
+    // a sibling with the very same transition instants and the same answers, but another type
+    // table: reversed order, or only the types that are referenced (fewer, other indices)
+    if z.trans.len() >= 1 && z.types.len() >= 2 && rng.chance(1, 3) {
+        let mut spec = spec_from_ref(z);
+        let n = spec.types.len();
+        let mut map: Vec<Option<u8>> = vec![None; n];
+        let mut new_types = Vec::new();
+        if rng.chance(1, 2) {
+            for (new_i, old_i) in (0..n).rev().enumerate() {
+                map[old_i] = Some(new_i as u8);
+                new_types.push(spec.types[old_i]);
+            }
+        } else {
+            // type 0 stays (it governs instants before the first transition), then referenced ones
+            map[0] = Some(0);
+            new_types.push(spec.types[0]);
+            for (_, i) in &spec.trans {
+                if map[*i as usize].is_none() {
+                    map[*i as usize] = Some(new_types.len() as u8);
+                    new_types.push(spec.types[*i as usize]);
+                }
+            }
+        }
+        if new_types != spec.types {
+            for t in spec.trans.iter_mut() {
+                t.1 = map[t.1 as usize].unwrap_or(0);
+            }
+            spec.types = new_types;
+            let bytes = spec.build();
+            if tzref::parse_tzif(&bytes).map(|zz| zz.footer_consistent()).unwrap_or(false) {
+                return Some(bytes);
+            }
+        }
+    }
     let rule = match &z.footer {
         Footer::Rule(r) => r.clone(),
         _ => return None,
@@ -604,6 +648,49 @@ pub fn sibling_of(z: &RefZone, rng: &mut Rng) -> Option<Vec<u8>> {
             }
         }
         return Some(bytes);
+    }
+    None
+}
+
+/// A well-formed file of the same length whose 32-bit big-endian words have the same sum (and,
+/// for the second kind, the same XOR) as `bytes`, but which answers differently somewhere: what a
+/// cache keyed by length and a cheap checksum cannot tell apart.
+pub fn checksum_sibling(bytes: &[u8], rng: &mut Rng) -> Option<Vec<u8>> {
+    let z = tzref::parse_tzif(bytes).ok()?;
+    let words = bytes.len() / 4;
+    if words < 30 {
+        return None;
+    }
+    let probe: Vec<i64> = z.trans.iter().flat_map(|(t, _)| [*t, *t + 1]).chain([0, 1_700_000_000, 2_000_000_000, 4_000_000_000]).collect();
+    let answers = |zz: &RefZone| -> Vec<Answer> { probe.iter().map(|t| zz.offset_at(*t)).collect() };
+    let base_answers = answers(&z);
+    for _ in 0..400 {
+        let i = 11 + rng.usize(words - 11);
+        let j = 11 + rng.usize(words - 11);
+        if i == j {
+            continue;
+        }
+        let mut c = bytes.to_vec();
+        let rd = |c: &Vec<u8>, k: usize| u32::from_be_bytes([c[4 * k], c[4 * k + 1], c[4 * k + 2], c[4 * k + 3]]);
+        if rng.chance(1, 2) {
+            let d = *rng.pick(&[1u32, 60, 900, 1800, 3600, 7200, 86400]);
+            let (a, b) = (rd(&c, i).wrapping_add(d), rd(&c, j).wrapping_sub(d));
+            c[4 * i..4 * i + 4].copy_from_slice(&a.to_be_bytes());
+            c[4 * j..4 * j + 4].copy_from_slice(&b.to_be_bytes());
+        } else {
+            let bit = 1u32 << rng.below(13);
+            let (a, b) = (rd(&c, i) ^ bit, rd(&c, j) ^ bit);
+            if a.wrapping_add(b) != rd(&c, i).wrapping_add(rd(&c, j)) {
+                continue; // keep the additive sum as well
+            }
+            c[4 * i..4 * i + 4].copy_from_slice(&a.to_be_bytes());
+            c[4 * j..4 * j + 4].copy_from_slice(&b.to_be_bytes());
+        }
+        if let Ok(zz) = tzref::parse_tzif(&c) {
+            if zz.footer_consistent() && zz.premise_holds() && answers(&zz) != base_answers {
+                return Some(c);
+            }
+        }
     }
     None
 }
@@ -868,6 +955,20 @@ pub fn one_run(w: &Work, seed: u64, idx: u64, stats: &mut Stats) -> Option<u64> 
     stats.inc("c18.configurations");
     stats.inc(&format!("c18.source.{}", case.source));
     let mut instants = instants_for(&z, &mut rng, w.n_random, w.rule_years);
+    if rng.chance(1, 100) {
+        // a daemon that asks for local time every few seconds to minutes, a thousand times and more
+        let lo = z.trans.first().map(|t| t.0).unwrap_or(0).max(0);
+        let mut t = rng.range(lo, MAX_CLOCK - 400 * 86400);
+        let step_max = *rng.pick(&[5i64, 60, 600, 7200]);
+        let n = rng.range(700, 3000);
+        let mut walk = Vec::with_capacity(n as usize);
+        for _ in 0..n {
+            walk.push(t);
+            t += rng.range(1, step_max);
+        }
+        stats.inc("c18.reach.marathon_walks");
+        instants.extend(walk);
+    }
     if rng.chance(1, 3) {
         // a process lifetime with a monotonic clock, before or after the probe list
         let walk = lifetime_walk(&z, &mut rng);
@@ -886,9 +987,10 @@ pub fn one_run(w: &Work, seed: u64, idx: u64, stats: &mut Stats) -> Option<u64> 
     let upgrade = if rng.chance(1, 5) {
         // the tzdata package (or an administrator) replaces the file by rename while the process
         // keeps looking up: an unrelated zone, or a sibling that differs in one footer component
-        let other = match rng.below(4) {
+        let other = match rng.below(5) {
             0 if !w.corpus.is_empty() => std::fs::read(&w.corpus[rng.usize(w.corpus.len())].1).ok(),
             1 => Some(tzgen::synth(&mut rng).spec.build()),
+            2 => checksum_sibling(&case.bytes, &mut rng).or_else(|| sibling_of(&z, &mut rng)).or_else(|| Some(tzgen::synth(&mut rng).spec.build())),
             _ => sibling_of(&z, &mut rng).or_else(|| Some(tzgen::synth(&mut rng).spec.build())),
         };
         let n_local = instants.iter().filter(|t| **t >= 0).count().max(1);
@@ -1033,7 +1135,7 @@ pub fn check(tier: &str, seed: u64) -> i32 {
         .set("faults", stats.counters_json("c18.fault."))
         .set("reach", stats.counters_json("c18.reach."))
         .set("unjudged", stats.counters_json("c18.unjudged."))
-        .set("reach_probes_at_zero", crate::report::probes_at_zero(&stats, &["c18.reach.at_rule_switch_pm1s","c18.reach.rule_in_leap_year_after_february","c18.reach.monotonic_lifetime_walks","c18.fault.atomic_upgrade.injected","c18.fault.atomic_upgrade.effective(lookups_on_new_file)","c18.fault.zone_switched_back_and_forth.injected","c18.fault.slow_clock_reads.runs","c18.region.at-transition","c18.lookups.getters_judged"]))
+        .set("reach_probes_at_zero", crate::report::probes_at_zero(&stats, &["c18.reach.at_rule_switch_pm1s","c18.reach.rule_in_leap_year_after_february","c18.reach.monotonic_lifetime_walks","c18.reach.marathon_walks","c18.fault.atomic_upgrade.injected","c18.fault.atomic_upgrade.effective(lookups_on_new_file)","c18.fault.zone_switched_back_and_forth.injected","c18.fault.slow_clock_reads.runs","c18.region.at-transition","c18.lookups.getters_judged"]))
         .set("simulated_span_seconds_sum", Json::Int(stats.get("c18.sim_span_seconds") as i128))
         .set("configurations_per_hour", Json::Int((stats.get("c18.configurations") as f64 / wall.max(1e-9) * 3600.0) as i128))
         .set("real_components", Json::s("offset.rs resolve (file read, parse, clock read, lookup), local/** (header, data block, cursor, footer parser, rule evaluation), datetime.rs/time.rs now_local + getters + format, util/**"))
